@@ -136,6 +136,53 @@ def _worker(args):
         return dict(name=hname, error=traceback.format_exc()[-1500:], wall=time.time() - t0)
 
 
+def _proc_main(job, conn):
+    try:
+        conn.send(_worker(job))
+    except Exception:
+        conn.send(dict(name=job[2], error=traceback.format_exc()[-1500:], wall=0))
+    finally:
+        conn.close()
+
+
+def _run_jobs(jobs, workers, budget_s):
+    """one process per harness with a hard wall-clock limit (a solver call that ignores its own
+    limits must not hang the check: the harness is then reported undecided)"""
+    ctxm = mp.get_context("fork")
+    pending = list(jobs)
+    running = []
+    results = []
+    while pending or running:
+        while pending and len(running) < workers:
+            job = pending.pop(0)
+            pc, cc = ctxm.Pipe(duplex=False)
+            p = ctxm.Process(target=_proc_main, args=(job, cc), daemon=True)
+            p.start()
+            cc.close()
+            running.append((job, p, pc, time.time()))
+        still = []
+        for job, p, pc, t0 in running:
+            if pc.poll(0.02):
+                try:
+                    results.append(pc.recv())
+                except EOFError:
+                    results.append(dict(name=job[2], error="harness process died", wall=time.time() - t0))
+                p.join(5)
+            elif not p.is_alive():
+                results.append(dict(name=job[2], error="harness process died (exit %s)" % p.exitcode, wall=time.time() - t0))
+            elif time.time() - t0 > budget_s:
+                p.terminate()
+                p.join(5)
+                if p.is_alive():
+                    p.kill()
+                results.append(dict(name=job[2], timeout=True, wall=time.time() - t0,
+                                    error="harness exceeded its wall-clock budget of %ds" % budget_s))
+            else:
+                still.append((job, p, pc, t0))
+        running = still
+    return results
+
+
 def run_file(rep, contract_mod, only=None, workers=None, verbose=False):
     """run every harness of /verif/contracts/<mod>.py and add obligations to the report"""
     contract_path = os.path.join(VERIF, *contract_mod.split(".")) + ".py"
@@ -156,15 +203,8 @@ def run_file(rep, contract_mod, only=None, workers=None, verbose=False):
     if not jobs:
         return []
     workers = workers or min(16, len(jobs), os.cpu_count() or 4)
-    results = []
-    if workers > 1 and len(jobs) > 1:
-        ctxm = mp.get_context("fork")
-        with ctxm.Pool(workers, maxtasksperchild=8) as pool:
-            for r in pool.imap_unordered(_worker, jobs):
-                results.append(r)
-    else:
-        for j in jobs:
-            results.append(_worker(j))
+    budget = float(os.environ.get("PYVC_HARNESS_TIMEOUT_S", "900" if rep.tier == "quick" else "3600"))
+    results = _run_jobs(jobs, workers, budget)
     results.sort(key=lambda r: r["name"])
     for r in results:
         _fold(rep, contract_mod, r, metas.get(r["name"], {}), verbose)
@@ -175,6 +215,10 @@ def _fold(rep, contract_mod, r, meta, verbose):
     hname = r["name"]
     clause = meta.get("clause", hname)
     label = meta.get("label", "P")
+    if r.get("timeout"):
+        rep.add(Obligation("%s/%s" % (hname, "within-budget"), clause, "harness finishes within its budget", UNDECIDED,
+                           "engine", r.get("wall", 0), label=label, detail=r["error"]))
+        return
     if "error" in r:
         rep.add(Obligation("%s/%s" % (hname, "engine"), clause, "harness runs", ERROR, "engine", r.get("wall", 0),
                            label=label, detail=r["error"]))
